@@ -9,7 +9,8 @@ partial def nodeCount : List Node → Nat
 
 def handleHtml (j : Json) : Except String Json := do
   let ns ← (← getArr j "nodes").mapM nodeOfJson
-  let fuel := 2 * nodeCount ns + 4
+  -- C04_literal_algorithm needs 3 * depth ≤ fuel + 1; depth ≤ node count (a thin chain has count ≈ depth, so 2 * count was too little)
+  let fuel := 3 * nodeCount ns + 4
   pure <| Json.mkObj [
     ("strip", nodesToJson (stripEmpty ns)),
     ("collapse", nodesToJson (collapse ns)),
